@@ -63,6 +63,46 @@ func c18Relayout(r *Rng, src []byte) []byte {
 	return out
 }
 
+// a lexeme the lexer rejects (mostly; some combinations are well-formed and are dropped by the
+// caller when the source parses)
+func c18BadLexeme(r *Rng) string {
+	switch r.Intn(4) {
+	case 0: // numbers
+		s := r.Pick([]string{"", "-"}) + r.Pick([]string{"0", "1", "12", "01", "00", "", "0"}) +
+			r.Pick([]string{"", "", ".", ".5", ".5", "..", ".e"}) +
+			r.Pick([]string{"", "e", "E", "e+", "e-", "E+", "e5", "E-3", "e+x", "ee"}) +
+			r.Pick([]string{"", "", "x", "_", ".", "-"})
+		if s == "" {
+			s = "-"
+		}
+		return s
+	case 1: // strings
+		body := r.Pick([]string{"", "a", "ab c", "a\\n", "\\\"", "x\\u0041y"})
+		bad := r.Pick([]string{"\\q", "\\u12", "\\u12G4", "\\uZZZZ", "\\", "\\ ", "\x07", "\x00", "\x1f", "\\'", "\\U0041", "\\x41"})
+		tail := r.Pick([]string{"\"", "\"", "", "\n\"", "\r\"", " z\""})
+		switch r.Intn(3) {
+		case 0:
+			return "\"" + body + bad + body + tail
+		case 1:
+			return "\"" + body + r.Pick([]string{"", "\n", "\r", "\r\n"}) // unterminated
+		default:
+			return "\"" + body + bad
+		}
+	case 2: // block strings
+		body := r.Pick([]string{"", "a", " a\n  b ", "x \\\"\"\" y", "\\\"\"\"", "q\"\"r", "\\"})
+		switch r.Intn(3) {
+		case 0:
+			return "\"\"\"" + body + r.Pick([]string{"", "\"", "\"\"", "\n"}) // unterminated: runs to the end
+		case 1:
+			return "\"\"\"" + body + r.Pick([]string{"\x01", "\x00", "\x1f", "\x0b"}) + body + "\"\"\""
+		default:
+			return "\"\"\"" + body + "\\\"\"\"" + r.Pick([]string{"\x02", ""}) // escaped closing quotes
+		}
+	default: // characters
+		return r.Pick([]string{"%", "~", "?", ".", "..", ". .", "\x00", "\x7f", "\x08", "^", "*", "<", ";", "'", "`", "\\", "+", "/", "#\x00", "....", "-.", ".5"})
+	}
+}
+
 var c18DoSchema *graphql.Schema
 
 func c18SynSchema() *graphql.Schema {
@@ -163,6 +203,31 @@ func c18GenSyntax(tier string, seed uint64, n int, e *Emitter) {
 			toks = append([]string{"query", "foo", "("}, toks...)
 		}
 		c18EmitSyn(e, c18Relayout(r, c03Render(r, toks, false)), []string{"tokens", "random"}, i%8 == 0)
+	}
+	// (d) malformed lexemes: as an argument value behind a random valid beginning (the lexer's
+	// report), and at a random token boundary of a generated document (lexer or parser, whoever
+	// comes first under lazy lexing)
+	for i := 0; i < m; i++ {
+		r := NewRng(seed^0x1e8e, uint64(i))
+		bad := c18BadLexeme(r)
+		var toks []string
+		what := "lexeme-as-value"
+		if i%2 == 0 {
+			toks = []string{"{", r.Pick(c03Names), "(", r.Pick(c03Names), ":", bad, ")", "}"}
+			if r.Bool() {
+				toks = append([]string{"query", r.Pick(c03Names), "@", "d"}, toks...)
+			}
+		} else {
+			what = "lexeme-anywhere"
+			doc, _ := c03GenDoc(r)
+			k := r.Intn(len(doc) + 1)
+			toks = append(append(append([]string{}, doc[:k]...), bad), doc[k:]...)
+		}
+		src := c03Render(r, toks, false)
+		if r.Bool() {
+			src = c18Relayout(r, src)
+		}
+		c18EmitSyn(e, src, []string{"lexical", what}, i%8 == 2)
 	}
 	// (c) grammar-generated documents, mutated
 	for i := 0; i < m; i++ {
